@@ -105,6 +105,11 @@ class ElabPass:
         if module in self.CLASS_LEVEL_CACHE.done:
             return module
 
+        # A Module in which any pass of any earlier elaboration failed - or which instantiates such a Module -
+        # may have been left partially re-written. It is never elaborated again; report the original error.
+        if module._elab_error is not None:
+            raise module._elab_error
+
         # Add `module` to our elab stack.
         # This is helpful even if (especially if) we find it's a circular dependency next.
         self.stack.append(module)
@@ -115,20 +120,27 @@ class ElabPass:
             return self.fail(msg)
         self.CLASS_LEVEL_CACHE.pending.add(module)
 
-        # Depth-first traverse instances, ensuring their targets are defined
-        for inst in module.instances.values():
-            self.elaborate_instance_base(inst)
-        for arr in module.instarrays.values():
-            self.elaborate_instance_base(arr)
-        for instbundle in module.instbundles.values():
-            self.elaborate_instance_base(instbundle)
+        try:
+            # Depth-first traverse instances, ensuring their targets are defined
+            for inst in module.instances.values():
+                self.elaborate_instance_base(inst)
+            for arr in module.instarrays.values():
+                self.elaborate_instance_base(arr)
+            for instbundle in module.instbundles.values():
+                self.elaborate_instance_base(instbundle)
 
-        # Traverse Bundle instances
-        for bundle in module.bundles.values():
-            self.elaborate_bundle_instance(bundle)
+            # Traverse Bundle instances
+            for bundle in module.bundles.values():
+                self.elaborate_bundle_instance(bundle)
 
-        # Run the pass-specific `elaborate_module`
-        result = self.elaborate_module(module)
+            # Run the pass-specific `elaborate_module`
+            result = self.elaborate_module(module)
+
+        except Exception as e:
+            # No longer pending, and never to be elaborated again.
+            self.CLASS_LEVEL_CACHE.pending.discard(module)
+            module._elab_error = e
+            raise
 
         # Pop the hierarchy-stack and return it
         self.stack.pop()
